@@ -319,7 +319,9 @@ def run_hashers(path, pl):
         a = HasherV2(path, pl, progress=0, progress_bar=_NoBar())
         h = HasherHybrid(path, pl, progress=0, progress_bar=_NoBar())
         res = {"V2": (a.root, a.piece_layer),
-               "HY": (h.root, h.piece_layer, b"".join(h.pieces),
+               # (the v1 digests as one byte string, whether the class keeps a list or a buffer)
+               "HY": (h.root, h.piece_layer,
+                      bytes(h.pieces) if isinstance(h.pieces, (bytes, bytearray)) else b"".join(h.pieces),
                       h.padding_file["length"] if h.padding_file else None)}
         for tag, hyb in (("F0", False), ("F1", True)):
             f = FileHasher(path, pl, progress=0, hybrid=hyb, progress_bar=_NoBar())
